@@ -495,3 +495,107 @@ func (r *vCountReturner) AllocResults(sz ObjectSize) (Struct, error) {
 	return Struct{}, newError("no results")
 }
 func (r *vCountReturner) Return(e error) { r.returns++; r.err = e }
+
+// vPathCaller records the transform of every pipelined call it gets
+type vPathCaller struct {
+	paths [][]PipelineOp
+}
+
+func (c *vPathCaller) PipelineSend(ctx context.Context, transform []PipelineOp, s Send) (*Answer, ReleaseFunc) {
+	c.paths = append(c.paths, transform)
+	return ErrorAnswer(s.Method, newError("vPathCaller")), func() {}
+}
+
+func (c *vPathCaller) PipelineRecv(ctx context.Context, transform []PipelineOp, r Recv) PipelineCaller {
+	c.paths = append(c.paths, transform)
+	return nil
+}
+
+// A future two fields deep (.Field(a).Field(b), a != b): before resolution the pipelined call carries
+// the path [a b] in that order; after resolution the client obtained earlier and one obtained now both
+// are the capability at result.a.b - not the one at result.b.a.
+func VH_C11_nested_field_path() {
+	a := uint16(vConc(int(vNondetU8()), 2))     // 0 or 1
+	b := uint16(2 + vConc(int(vNondetU8()), 2)) // 2 or 3
+	pc := &vPathCaller{}
+	p := NewPromise(Method{}, pc)
+	f := p.Answer().Field(a, nil).Field(b, nil)
+	early := f.Client()
+	_, rel := early.SendCall(context.Background(), Send{})
+	rel()
+	vReach("pipelined")
+	vAssert(len(pc.paths) == 1 && len(pc.paths[0]) == 2 && pc.paths[0][0].Field == a && pc.paths[0][1].Field == b, "C11.nested.pipelined-call-carries-the-path-in-order")
+	// result: root.ptr[a] -> struct whose ptr[b] is capability 1; root.ptr[b] -> struct whose ptr[a] is capability 0
+	msg, seg := vNewMsg()
+	root, err := NewRootStruct(seg, ObjectSize{PointerCount: 4})
+	vAssume(err == nil)
+	h0, h1 := &vHook{}, &vHook{}
+	msg.CapTable = []*Client{NewClient(h0), NewClient(h1)}
+	sa, err := NewStruct(seg, ObjectSize{PointerCount: 4})
+	vAssume(err == nil)
+	sb, err := NewStruct(seg, ObjectSize{PointerCount: 4})
+	vAssume(err == nil)
+	vAssume(sa.SetPtr(b, NewInterface(seg, 1).ToPtr()) == nil)
+	vAssume(sb.SetPtr(a, NewInterface(seg, 0).ToPtr()) == nil)
+	vAssume(root.SetPtr(a, sa.ToPtr()) == nil)
+	vAssume(root.SetPtr(b, sb.ToPtr()) == nil)
+	p.Fulfill(root.ToPtr())
+	vReach("fulfilled")
+	early.SendCall(context.Background(), Send{})
+	vAssert(h1.sends == 1 && h0.sends == 0, "C11.nested.earlier-client-is-the-capability-at-the-path")
+	late := p.Answer().Field(a, nil).Field(b, nil).Client()
+	late.SendCall(context.Background(), Send{})
+	vAssert(h1.sends == 2 && h0.sends == 0, "C11.nested.later-client-is-the-capability-at-the-path")
+	vAssert(vLocksHeld() == 0, "C11.nested.no-lock-held")
+}
+
+// TWO pipelined calls inside the PipelineCaller when the resolution starts: it waits for BOTH - it
+// does not complete when the first one returns.
+func VH_C11_resolve_waits_for_every_call() {
+	g1, g2 := make(chan struct{}), make(chan struct{})
+	gc := &vTwoGateCaller{gates: [2]chan struct{}{g1, g2}}
+	p := NewPromise(Method{}, gc)
+	done := [2]bool{}
+	resolved := false
+	for k := 0; k < 2; k++ {
+		kk := k
+		go func() {
+			_, rel := p.Answer().PipelineSend(context.Background(), nil, Send{})
+			rel()
+			done[kk] = true
+		}()
+		vSettle()
+	}
+	vAssert(gc.entered == 2, "C11.two.both-calls-inside-the-caller")
+	go func() {
+		p.Fulfill(Ptr{})
+		resolved = true
+	}()
+	vSettle()
+	vAssert(!resolved, "C11.two.resolution-waits")
+	close(g1)
+	vSettle()
+	vReach("first-returned")
+	vAssert(!resolved, "C11.two.resolution-still-waits-for-the-second-call")
+	close(g2)
+	vSettle()
+	vReach("second-returned")
+	vAssert(resolved && done[0] && done[1], "C11.two.resolution-completes-after-every-call")
+	vAssert(vLocksHeld() == 0, "C11.two.no-lock-held")
+}
+
+type vTwoGateCaller struct {
+	gates   [2]chan struct{}
+	entered int
+}
+
+func (c *vTwoGateCaller) PipelineSend(ctx context.Context, transform []PipelineOp, s Send) (*Answer, ReleaseFunc) {
+	k := c.entered
+	c.entered++
+	<-c.gates[k]
+	return ErrorAnswer(s.Method, newError("vTwoGateCaller")), func() {}
+}
+
+func (c *vTwoGateCaller) PipelineRecv(ctx context.Context, transform []PipelineOp, r Recv) PipelineCaller {
+	return nil
+}
